@@ -59,7 +59,10 @@ def float_from_parts(sign, total, nfrac):
         if sign < 0:
             t = z3.fpNeg(t)
         return SymFloat(t)
-    exact = z3.ToReal(total) / (10 ** nfrac) if nfrac else z3.ToReal(total)
+    if nfrac == 0:
+        # an integer of at most 15 digits is exactly a double (callers bound the digit count)
+        return SymFloat(-z3.ToReal(total) if sign < 0 else z3.ToReal(total))
+    exact = z3.ToReal(total) / (10 ** nfrac)
     if sign < 0:
         exact = -exact
     return SymFloat(floatmodel.rnd(exact))
